@@ -1,4 +1,5 @@
 import O4.Lemmas.Obfs4Server
+import O4.Lemmas.ServerAccept
 import O4.Generated.Facts.Obfs4
 /-!
 # C03 — the obfs4 server is silent to anyone who cannot prove knowledge of the bridge line
@@ -201,6 +202,33 @@ theorem deadline_discipline (P : Prims) (F : Factory) (c : Conn) (f : RF.Filter)
   · simp [run, initOuts, wire, List.filter, Out.isWire, outsOf]
   · simpa [initState, ShapeAll, trace] using hsh
 
+/-- **"or that replays one", at capacity: a full filter forgets only its eldest entry.**  With the replay
+    filter full (`maxFilterSize` remembered MACs, or any other capacity), the forced eviction of
+    `compactFilter` takes exactly the front entry and TTL-based compaction resumes; so a replay of any
+    remembered handshake **other than the eldest one** is still not accepted (and by `silent` not
+    answered).  (`C11.evicts_oldest` is the same step for a *new* value.) -/
+theorem full_filter_forgets_only_eldest (P : Prims) (s : Server) (f : RF.Filter) (e0 : RF.Entry)
+    (rest : List RF.Entry) (H now : Int) (resp : Bytes) (pos : Nat)
+    (hf : f.fifo = e0 :: rest) (hfull : f.fifo.length = f.cap) (httl : 0 < f.ttl)
+    (hfront : ∀ e, rest.head? = some e → e.t ≤ now ∧ now - e.t < f.ttl)
+    (hpos : markPos P s resp = some pos)
+    (hmem : ∃ e ∈ rest, e.d = Bytes.toNatBE (macAt resp pos)) :
+    ¬ Accepts P s f H now resp := by
+  intro hacc
+  obtain ⟨seed, hs⟩ := (accepts_iff P s f H now resp).mpr hacc
+  exact parse_not_ok_of_seen P s f H now resp pos hpos
+    (RF.full_keeps_all_but_eldest f e0 rest now _ hf hfull httl hfront hmem) seed hs
+
+/-- the driver's bulk fill (`fac.fill`, used to bring the model's filter to capacity like the real one)
+    is `TestAndSet` repeated: distinct new values, below capacity, young eldest entry ⇒ every answer
+    is "new" and the values are appended in order. -/
+theorem fill_is_repeated_testAndSet (now : Int) (ds : List Nat) (f : RF.Filter) (httl : 0 < f.ttl)
+    (hroom : f.fifo.length + ds.length ≤ f.cap)
+    (hfront : ∀ e, f.fifo.head? = some e → e.t ≤ now ∧ now - e.t < f.ttl)
+    (hnd : ds.Nodup) (hfresh : ∀ d ∈ ds, ∀ e ∈ f.fifo, e.d ≠ d) :
+    f.run (ds.map (fun d => (now, d))) = (f.fillFresh now ds, ds.map (fun _ => false)) :=
+  RF.fillFresh_eq_run now ds f httl hroom hfront hnd hfresh
+
 /-! ## Non-vacuity: concrete instances (toy primitives, evaluated by the kernel) -/
 
 /-- a toy keyed hash: 32 equal bytes derived from a rolling checksum of key and message -/
@@ -279,5 +307,9 @@ theorem close_path_structure :
     "Conn.Write" ∉ O4.Facts.Obfs4.obfs4Conn_closeAfterDelay_calls ∧
     "Conn.SetDeadline" ∈ O4.Facts.Obfs4.obfs4Conn_serverHandshake_calls := by
   decide
+
+/-- full filter (capacity 3): the replay of the second-eldest value is still "seen", the eldest is forgotten -/
+example : ((⟨10, 3, [⟨1, 0⟩, ⟨2, 1⟩, ⟨3, 2⟩]⟩ : RF.Filter).testAndSet 3 2).2 = true ∧
+    ((⟨10, 3, [⟨1, 0⟩, ⟨2, 1⟩, ⟨3, 2⟩]⟩ : RF.Filter).testAndSet 3 1).2 = false := by decide
 
 end C03
